@@ -2,14 +2,22 @@
 
 model/Store.v is the simple store (one total step function); props/C18.v proves its laws for every state and input (read after
 write, frame, ranged read = RFC 9110 slice via the Range theorems, listing exact and sorted, multipart = concatenation in part
-order and owner-only, deletes).  Tied to the code by histories: the same operation sequence is run on the real backend
-(fresh directory, direct S3 trait calls) and on the model under vm_compute; every answer is compared."""
-import base64, hashlib, zlib
+order and owner-only, deletes).  model/FsImpl.v is the backend itself as a function on a directory tree (directories, object files, metadata / internal-info /
+upload-owner / part files, the temp-file write ending in a rename, the walk of a listing); props/C18.v proves that on every history
+over valid bucket names, ordinary keys none of which is a directory prefix of another, and fresh upload ids it answers exactly as
+the store does (simulation relation preserved by every operation).
+Tied to the code by histories: the same operation sequence is run on the real backend (fresh directory, direct S3 trait calls,
+the whole tree snapshotted around every operation) and on both models under vm_compute; every answer is compared with both, and
+the file-system model additionally path by path: which entries each operation added, changed or removed, and the final tree
+with the decoded content of every bookkeeping file.  The side conditions of the refinement theorem (universe_ok, hist_okb) are
+evaluated on every generated history; histories with prefix-conflicting keys (outside the theorem) are run against the
+file-system model alone."""
+import base64, hashlib, json, re, zlib
 import vlib
 from vlib import coq_bytes
 
-IMPORTS = ["lib.Bytes", "model.Store"]
-BUCKETS = ["bkt-a", "bkt-b", "bkt-c"]
+IMPORTS = ["lib.Bytes", "model.Store", "model.FsImpl", "proofs.FsRefine"]
+BUCKETS = ["abc", "abcdef", "bkt-c"]     # two names in prefix relation whose base64 encodings are in prefix relation too
 KEYS = ["a", "ab", "b/c", "b/d", "b/e/f", "b0", "zz/y", "b/cc"]
 PREFIXES = [None, "", "a", "b", "b/", "b/c", "b/e", "b/e/", "b/e/f", "z", "zz/", "c", "b//", "/b", "b/./", "ab", "b0x"]
 MIN_PART = 8
@@ -76,6 +84,16 @@ def gen_history(rng, n, big):
                 o[alg] = good if rng.below(2) else base64.b64encode(hashlib.sha256(body + b"x").digest()[:{"sha256": 32, "sha1": 20, "crc32": 4}[alg]]).decode()
             if rng.below(12) == 0:
                 o["frame"] = rng.choice([1, 3, 4096]); o["fail_after"] = rng.below(3)
+            elif rng.below(4) == 0 and len(body) <= 64:
+                # the same bytes in an explicit framing with empty frames in between
+                cuts = sorted(rng.below(len(body) + 1) for _ in range(rng.range(0, 3)))
+                pieces = [body[a:c] for a, c in zip([0] + cuts, cuts + [len(body)])]
+                fr = []
+                for pc in pieces:
+                    fr.append(pc.hex())
+                    if rng.below(2):
+                        fr.append("")
+                o["frames"] = ([""] if rng.below(3) == 0 else []) + fr
             live[(bk, key)] = len(body)
         elif k < 40:
             n_ = live.get((bk, key), 10)
@@ -109,8 +127,18 @@ def gen_history(rng, n, big):
                 abk, akey = bk, key
             if rng.below(12) == 0:
                 al = 99
-            kind = rng.below(10)
-            if kind < 5:
+            kind = rng.below(12)
+            if kind >= 10:
+                # UploadPartCopy: a part taken from an object, whole or a range parsed by the backend's own range parser
+                sb, sk = rng.choice(sorted(live)) if live and rng.below(5) else (rng.choice(BUCKETS), rng.choice(KEYS))
+                n_ = live.get((sb, sk), 10)
+                if rng.below(3):
+                    cred = acred
+                rg = rng.choice([None, None, None, "bytes=0-%d" % max(0, n_ - 1), "bytes=%d-%d" % (min(1, max(0, n_ - 1)), max(0, n_ - 1)), "bytes=%d-" % rng.below(n_ + 2), "bytes=%d-%d" % (rng.below(n_ + 1), rng.below(n_ + 3)),
+                                 "bytes=0-", "bytes=-5", "bytes=+1-2", "bytes=1-2-3", "bits=0-1", "bytes=a-b", "bytes=5-2", "bytes= 1-2",
+                                 "bytes=0-18446744073709551615", "bytes=0-18446744073709551616", "bytes=%d-%d" % (n_, n_), "bytes=%d-%d" % (n_ - 1, n_ - 1) if n_ else "bytes=0-0"])
+                o = dict(op="mpu_part_copy", bucket=abk, key=akey, alias=al, cred=cred, part=rng.choice([1, 1, 2, 2, 3, 10001]), src_bucket=sb, src_key=sk, range=rg)
+            elif kind < 5:
                 sz = rng.choice([0, 1, MIN_PART - 1, MIN_PART, MIN_PART + 5, 30])
                 o = dict(op="mpu_part", bucket=abk, key=akey, alias=al, cred=cred, part=rng.choice([1, 1, 2, 2, 3, 0, -1, 10000, 10001]),
                          body=bytes(rng.below(256) for _ in range(sz)))
@@ -163,6 +191,7 @@ def op_term(o):
     al, cred = o["alias"], copt(o.get("cred"))
     if op == "mpu_create": return "MpuCreate %d %s %s %s %s" % (al, cred, bk, k, ckv(o.get("metadata")))
     if op == "mpu_part": return "MpuPart %d %s (%d)%%Z %s %s" % (al, cred, o["part"], cb(o["body"]), "true" if "fail_after" in o else "false")
+    if op == "mpu_part_copy": return "MpuPartCopy %d %s (%d)%%Z %s %s %s" % (al, cred, o["part"], cb(o["src_bucket"]), cb(o["src_key"]), copt(o.get("range")))
     if op == "mpu_complete": return "MpuComplete %d %s %s %s [%s]%%Z" % (al, cred, bk, k, ";".join("(%d)" % n for n in o["parts"]))
     if op == "mpu_abort": return "MpuAbort %d %s %s %s" % (al, cred, bk, k)
     raise ValueError(op)
@@ -198,6 +227,25 @@ def spec_oracle(ops, outs):
             if u is None or u["cred"] != o.get("cred"):
                 return i, "a part was accepted from credentials that did not create the upload"
             u["parts"][o["part"]] = o["body"]
+        elif op == "mpu_part_copy" and ok:
+            u = ups.get(o["alias"])
+            if u is None or u["cred"] != o.get("cred"):
+                return i, "a part was copied into an upload by credentials that did not create it"
+            src = objs.get((o["src_bucket"], o["src_key"])) if o["src_bucket"] in buckets else None
+            if src is None:
+                return i, "a part was copied from an object that does not exist"
+            data = src[0]
+            if o.get("range") is not None:
+                m_ = re.fullmatch(r"bytes=\+?(\d+)-(?:\+?(\d+))?", o["range"])
+                if not m_:
+                    return i, "a part copy with a malformed source range succeeded"
+                first = int(m_.group(1)); last = int(m_.group(2)) if m_.group(2) is not None else len(data) - 1
+                if first > last or last >= len(data):
+                    return i, "a part copy with a source range outside the object succeeded"
+                data = data[first:last + 1]
+            if out != 'ok:"%s"' % hashlib.md5(data).hexdigest():
+                return i, "the ETag of a copied part is not the MD5 of the selected bytes of the source"
+            u["parts"][o["part"]] = data
         elif op == "mpu_abort" and ok:
             u = ups.pop(o["alias"], None)
             if u is None or u["cred"] != o.get("cred"):
@@ -247,6 +295,35 @@ def spec_oracle(ops, outs):
     return None
 
 
+def state_of_tree(tree):
+    """canonical text of the backend's directory tree (entries "path=kind"), in the format of Store.show_store"""
+    buckets, objs, metas, uploads, tmp = [], {}, set(), 0, 0
+    for e in tree:
+        path, _, kind = e.partition("=")
+        if not path.startswith("root/"):
+            continue
+        comps = path.split("/")[1:]
+        if len(comps) == 1:
+            n = comps[0]
+            if kind == "dir":
+                buckets.append(n)
+            elif n.startswith(".tmp."):
+                tmp += 1
+            elif n.startswith(".upload-") and n.endswith(".json"):
+                uploads += 1
+            else:
+                m = re.fullmatch(r"\.bucket-([A-Za-z0-9_\-]*)\.object-([A-Za-z0-9_\-]*)\.metadata\.json", n)
+                if m:
+                    d = lambda x: base64.urlsafe_b64decode(x + "=" * (-len(x) % 4))
+                    metas.add((d(m.group(1)), d(m.group(2))))
+        elif kind.startswith("file:"):
+            objs[(comps[0].encode(), "/".join(comps[1:]).encode())] = int(kind.split(":")[1])
+    items = sorted(("%s/%s:%d%s" % (b_.hex(), k.hex(), n, ":m" if (b_, k) in metas else "")).encode() for (b_, k), n in objs.items())
+    stale = [mk for mk in metas if mk not in objs]
+    return ("buckets=" + ",".join(sorted(buckets)) + "|objects=" + ",".join(x.decode() for x in items) + "|uploads=%d" % uploads
+            + ("|STALE-METADATA:%r" % stale if stale else "") + ("|TEMP-FILES:%d" % tmp if tmp else ""))
+
+
 def rfc_slice(text, n):
     import re
     m = re.fullmatch(r"bytes=(\d+)-(\d*)", text)
@@ -265,23 +342,305 @@ def rfc_slice(text, n):
     return None
 
 
+ALG = {"checksum_crc32": 0, "checksum_crc32c": 1, "checksum_sha1": 2, "checksum_sha256": 3}
+
+
+def canon_name(name, ids):
+    """root-relative path -> the text model/FsImpl.v prints: hex of each component, upload ids replaced by their alias"""
+    for al, uid in ids.items():
+        name = name.replace(uid, al)
+    return "/".join(c.encode().hex() for c in name.split("/"))
+
+
+def canon_diff(d, ids):
+    out = []
+    for e in d:
+        if not e[1:].startswith("root/"):
+            out.append(e[0] + "OUTSIDE:" + e[1:])
+        else:
+            out.append(e[0] + canon_name(e[1:][5:], ids))
+    return ",".join(x.decode() for x in sorted(y.encode() for y in out))
+
+
+def canon_tree(tree, side, ids):
+    out = []
+    for e in tree:
+        path, _, kind = e.partition("=")
+        if not path.startswith("root/"):
+            continue
+        rel = path[5:]
+        if kind == "dir":
+            out.append(canon_name(rel, ids) + "=dir")
+            continue
+        f = kind.split(":")
+        n, md5 = f[1], f[3]
+        if "/" not in rel and rel.startswith("."):
+            content = bytes.fromhex(side.get(rel, ""))
+            try:
+                if rel.endswith(".metadata.json"):
+                    m = json.loads(content)
+                    val = "meta:" + ",".join("%s=%s" % kv for kv in sorted(m.items(), key=lambda kv: kv[0].encode()))
+                elif rel.endswith(".internal.json"):
+                    m = json.loads(content)
+                    val = "info:" + ",".join("%d=%s" % (ALG[k], v) for k, v in sorted(m.items(), key=lambda kv: ALG[kv[0]]))
+                elif rel.startswith(".upload-") and rel.endswith(".json"):
+                    m = json.loads(content)
+                    val = "owner:" + ("-" if m is None else m)
+                elif rel.startswith(".upload_id-"):
+                    val = "file:%s:%s" % (n, md5)
+                else:
+                    val = "unexpected:" + kind
+            except (ValueError, KeyError, AttributeError):
+                val = "undecodable:" + kind
+            out.append(canon_name(rel, ids) + "=" + val)
+        else:
+            out.append(canon_name(rel, ids) + "=file:%s:%s" % (n, md5))
+    return "\n".join(x.decode("utf8") for x in sorted(y.encode() for y in out))
+
+
+CONFLICT_KEYS = ["k", "k/x", "k/x/y", "k/z", "q", "q/r/s", "w"]
+
+
+def gen_conflict_history(rng, n):
+    """writes through keys that are directory prefixes of one another (outside the refinement theorem; the file-system model alone
+    says what the code does: create_dir_all / rename / copy fail with InternalError and nothing changes).  Reads, deletes and copy
+    sources stay on keys that cannot have become directories."""
+    ops = [dict(op="create_bucket", bucket="abc")]
+    attempted = set()
+    aliases = []
+    def may_be_dir(k):
+        return any(a.startswith(k + "/") for a in attempted)
+    for _ in range(n):
+        key = rng.choice(CONFLICT_KEYS)
+        c = rng.below(10)
+        if c < 4:
+            attempted.add(key)
+            ops.append(dict(op="put", bucket="abc", key=key, body=bytes(rng.below(256) for _ in range(rng.range(0, 9))), metadata=rng.choice([None, {"a": "1"}])))
+        elif c < 6:
+            srcs = [k for k in CONFLICT_KEYS if not may_be_dir(k)]
+            attempted.add(key)
+            ops.append(dict(op="copy", bucket="abc", key=key, src_bucket="abc", src_key=rng.choice(srcs)))
+        elif c < 7:
+            ops.append(dict(op="list", bucket="abc", prefix=rng.choice([None, "k", "k/", "q"])))
+        elif c < 8:
+            cand = [k for k in CONFLICT_KEYS if not may_be_dir(k)]
+            ops.append(dict(op=rng.choice(["get", "head", "delete"]), bucket="abc", key=rng.choice(cand)))
+        else:
+            if not aliases or rng.below(3) == 0:
+                al = len(aliases)
+                aliases.append(al)
+                ops.append(dict(op="mpu_create", bucket="abc", key=key, alias=al, cred="alice", metadata=rng.choice([None, {"up": "load"}])))
+            else:
+                al = rng.choice(aliases)
+                ops.append(dict(op="mpu_part", bucket="abc", key=key, alias=al, cred="alice", part=1, body=bytes(rng.below(256) for _ in range(MIN_PART + 1))))
+                attempted.add(key)
+                ops.append(dict(op="mpu_complete", bucket="abc", key=key, alias=al, cred="alice", parts=[1]))
+    return ops
+
+
+BLOCKED_FIXED = [
+    dict(op="create_bucket", bucket="abc"), dict(op="put", bucket="abc", key="k/x", body=b"one", metadata={"a": "1"}),
+    dict(op="put", bucket="abc", key="k", body=b"two"), dict(op="get", bucket="abc", key="k/x"), dict(op="put", bucket="abc", key="k/x/y", body=b"three"),
+    dict(op="list", bucket="abc"), dict(op="copy", bucket="abc", key="k", src_bucket="abc", src_key="k/x"),
+    dict(op="copy", bucket="abc", key="k/x/z", src_bucket="abc", src_key="k/x"),
+    dict(op="mpu_create", bucket="abc", key="k", alias=0, cred="alice", metadata={"u": "v"}),
+    dict(op="mpu_part", bucket="abc", key="k", alias=0, cred="alice", part=1, body=b"abcdefghij"),
+    dict(op="mpu_complete", bucket="abc", key="k", alias=0, cred="alice", parts=[1]),
+    dict(op="mpu_complete", bucket="abc", key="k/x/w", alias=0, cred="alice", parts=[1]), dict(op="list", bucket="abc"),
+    dict(op="mpu_complete", bucket="abc", key="q/r/s", alias=0, cred="alice", parts=[1]), dict(op="list", bucket="abc"),
+    dict(op="put", bucket="abc", key="q", body=b"four"), dict(op="put", bucket="abc", key="q/r", body=b"five"),
+    dict(op="delete", bucket="abc", key="q/r/s"), dict(op="put", bucket="abc", key="q/r", body=b"six"), dict(op="list", bucket="abc")]
+
+def part_copy_history():
+    src = bytes(range(40))
+    h = [dict(op="create_bucket", bucket="abc"), dict(op="put", bucket="abc", key="a", body=src, metadata={"a": "1"}), dict(op="put", bucket="abc", key="b0", body=b""),
+         dict(op="mpu_create", bucket="abc", key="b/c", alias=0, cred="alice", metadata=None)]
+    pc = lambda part, rg, sk="a", cred="alice", al=0: dict(op="mpu_part_copy", bucket="abc", key="b/c", alias=al, cred=cred, part=part, src_bucket="abc", src_key=sk, range=rg)
+    h += [pc(1, None), pc(2, "bytes=8-23"), pc(3, "bytes=39-"), pc(3, "bytes=+30-+39"), pc(4, "bytes=0-40"), pc(4, "bytes=40-"), pc(4, "bytes=9-8"), pc(4, "bytes=-5"),
+          pc(4, "bytes=1-2-3"), pc(4, "bits=1-2"), pc(4, "bytes=x-2"), pc(4, "bytes=1-y"), pc(4, "bytes=1 -2"), pc(4, "bytes=18446744073709551616-"),
+          pc(4, "bytes=0-", sk="b0"), pc(4, None, sk="b0"), pc(5, None, sk="zz/y"), pc(1, None, cred="bob"), pc(1, None, cred=None), pc(1, None, al=99),
+          dict(op="mpu_complete", bucket="abc", key="b/c", alias=0, cred="alice", parts=[1, 2, 3, 4]), dict(op="get", bucket="abc", key="b/c"),
+          pc(1, None), dict(op="list", bucket="abc")]
+    return h
+
+
+def metadata_grid_history():
+    """every way an object can be replaced (put, copy, completed upload) x whether the new and the old content carry user metadata, each followed
+    by a read: the metadata of an object is that of its last write, never a leftover"""
+    h = [dict(op="create_bucket", bucket="abc"), dict(op="create_bucket", bucket="bkt-c")]
+    M1, M2 = {"a": "1"}, {"k2": "v", "k1": "w w"}
+    h += [dict(op="put", bucket="abc", key="a", body=b"src-with", metadata=M1), dict(op="put", bucket="abc", key="ab", body=b"src-without", metadata=None)]
+    n = 0
+    for old in (None, M2, "absent"):
+        for new in (None, M1):
+            for how in ("put", "copy", "copy-other-bucket", "complete"):
+                bk = "bkt-c" if how == "copy-other-bucket" else "abc"
+                if old == "absent":
+                    h.append(dict(op="delete", bucket=bk, key="b/d"))
+                else:
+                    h.append(dict(op="put", bucket=bk, key="b/d", body=b"old", metadata=old))
+                if how == "put":
+                    h.append(dict(op="put", bucket=bk, key="b/d", body=b"new", metadata=new))
+                elif how.startswith("copy"):
+                    h.append(dict(op="copy", bucket=bk, key="b/d", src_bucket="abc", src_key="a" if new else "ab"))
+                else:
+                    h += [dict(op="mpu_create", bucket=bk, key="b/d", alias=n, cred="alice", metadata=new),
+                          dict(op="mpu_part", bucket=bk, key="b/d", alias=n, cred="alice", part=1, body=b"part"),
+                          dict(op="mpu_complete", bucket=bk, key="b/d", alias=n, cred="alice", parts=[1])]
+                    n += 1
+                h += [dict(op="get", bucket=bk, key="b/d"), dict(op="head", bucket=bk, key="b/d")]
+    h += [dict(op="delete_many", bucket="abc", keys=["b/d", "a"]), dict(op="put", bucket="abc", key="a", body=b"again", metadata=None), dict(op="get", bucket="abc", key="a"),
+          dict(op="delete_bucket", bucket="bkt-c"), dict(op="create_bucket", bucket="bkt-c"), dict(op="put", bucket="bkt-c", key="b/d", body=b"fresh", metadata=None),
+          dict(op="get", bucket="bkt-c", key="b/d"), dict(op="list", bucket="bkt-c")]
+    return h
+
+
+PRELUDE = """Definition c18_all (U : list bytes) (mp : N) (h : list op) : bytes :=
+  run_outputs mp h ++ [10; 35; 10] ++ run_state mp h ++ [10; 35; 10] ++ fs_history mp h
+  ++ [10; 35; 10] ++ show_bool (universe_ok U) ++ [44] ++ show_bool (hist_okb U mp empty_fs h).
+"""
+
+
+def split_model(m):
+    store_outs, store_state, fs, dom = m.split(b"\n#\n")
+    fo, rest = fs.split(b"\n#diffs\n")
+    fd, ft = rest.split(b"\n#tree\n")
+    return ([x.decode("utf8", "replace") for x in store_outs.split(b"\n")], store_state.decode(),
+            [x.decode("utf8", "replace") for x in fo.split(b"\n")], [x.decode() for x in fd.split(b"\n")], ft.decode("utf8", "replace"), dom.decode())
+
+
+def probe_after(ctx, prefix):
+    """the history so far followed by a read of every object of every bucket, a listing of every bucket and every bucket's existence,
+    run on the backend alone and judged by the specification oracle"""
+    ctx.probes += 1
+    probe = list(prefix)
+    for bk in BUCKETS:
+        probe.append(dict(op="list", bucket=bk))
+        for key in KEYS:
+            probe.append(dict(op="get", bucket=bk, key=key))
+    try:
+        r = vlib.run_impl("fs", [to_case(probe)])[0]
+    except vlib.HarnessError:
+        return None
+    if "outs" not in r:
+        return None
+    bad = spec_oracle(probe, r["outs"])
+    if bad is None:
+        return None
+    return bad[0], bad[1], probe, r["outs"]
+
+
+def compare_fs_model(ctx, ops, r, fs_outs, fs_diffs, fs_tree, tag):
+    """the file-system model against the code: answers, changed paths per operation, final tree"""
+    ids = dict(r.get("uploads", {}))
+    for i, o in enumerate(ops):
+        ctx.cov["evaluations"] += 1
+        io, idf = r["outs"][i], canon_diff(r["diffs"][i], ids)
+        mo = fs_outs[i] if i < len(fs_outs) else "<missing>"
+        md = fs_diffs[i] if i < len(fs_diffs) else "<missing>"
+        if io == mo and idf == md:
+            ctx.cov["traces_validated_against_impl"] += 1
+            ctx.count("fsmodel.%s.op.agree" % tag)
+            if idf:
+                ctx.nontrivial(("fsdiff", o["op"], idf.count(",") + 1, io[:20]))
+        else:
+            what = "answer" if io != mo else "changed paths"
+            outside = "OUTSIDE:" in idf
+            # search for a failing input: read everything back after this operation and let the specification oracle judge
+            found = probe_after(ctx, ops[:i + 1]) if tag == "in_universe" and ctx.probes < 4 else None
+            if found is not None:
+                j, why, probe_ops, probe_outs = found
+                ctx.violation(dict(stage="fs-history", kind="the backend's answer breaks the store specification: " + why + " (found by reading every object back "
+                                   "after the operation on which the backend and the file-system model first differ)", op_index=j, op=show_op(probe_ops[j]),
+                                   impl=probe_outs[j][:300], diverging_operation=show_op(o), history=[show_op(x) for x in probe_ops[:j + 1]]))
+                return False
+            ctx.violation(dict(stage="correspondence:fs-model", kind=("the backend touched a path outside its root" if outside else
+                               "the %s of an operation differ between the backend and the file-system model (model/FsImpl.v); the refinement "
+                               "theorem no longer speaks about this code" % what), op_index=i, op=show_op(o), impl_answer=io[:300], model_answer=mo[:300],
+                               impl_changed=idf[:600], model_changed=md[:600], history=[show_op(x) for x in ops[:i + 1]]), has_input=outside)
+            return False
+    it = canon_tree(r["tree"], r.get("side", {}), ids)
+    ctx.cov["evaluations"] += 1
+    if it != fs_tree:
+        import difflib
+        found = probe_after(ctx, ops) if tag == "in_universe" and ctx.probes < 4 else None
+        if found is not None:
+            j, why, probe_ops, probe_outs = found
+            ctx.violation(dict(stage="fs-history", kind="the backend's answer breaks the store specification: " + why + " (found by reading every object back "
+                               "at the end of a history whose final tree differs from the file-system model's)", op_index=j, op=show_op(probe_ops[j]),
+                               impl=probe_outs[j][:300], history=[show_op(x) for x in probe_ops[:j + 1]]))
+            return False
+        ctx.violation(dict(stage="correspondence:fs-model", kind="the directory tree at the end of the history (every entry, sizes, MD5 of contents, decoded bookkeeping "
+                           "files) is not the tree of the file-system model", diff=list(difflib.unified_diff(it.split("\n"), fs_tree.split("\n"), "backend", "model", lineterm="", n=0))[:40],
+                           history=[show_op(x) for x in ops]), has_input=False)
+        return False
+    ctx.cov["traces_validated_against_impl"] += 1
+    ctx.count("fsmodel.%s.tree.agree" % tag)
+    return True
+
+
 def run(ctx):
-    ctx.cov["rule"] = "a case is one operation of one history answered by both sides; distinct = distinct (operation, answer) pairs"
+    ctx.cov["rule"] = ("a case is one operation of one history answered by the backend and by a model (store: the answer; file-system model: the answer and "
+                       "the set of paths added / changed / removed), or the final tree of one history; distinct = distinct (operation, answer) pairs and "
+                       "distinct (operation, number of changed paths) pairs")
     r = ctx.coq(imports=IMPORTS)
     if not r["ok"]:
         ctx.violation(dict(stage="proof", kind="theorem or build broken", issues=r["issues"]), has_input=False)
     rng = ctx.rng
     plan = [(30, 40, False), (6, 25, True)] if ctx.quick else [(400, 60, False), (60, 40, True)]
-    hists = [gen_history(rng, n, big) for cnt, n, big in plan for _ in range(cnt)]
+    hists = [gen_history(rng, n, big) for cnt, n, big in plan for _ in range(cnt)] + [part_copy_history(), metadata_grid_history()]
+    ctx.probes = 0
+    universe = "[" + ";".join(cb(k) for k in KEYS) + "]"
+    nconf = 6 if ctx.quick else 60
+    conflict = [BLOCKED_FIXED] + [gen_conflict_history(rng, 25) for _ in range(nconf)]
     try:
-        res = vlib.run_impl("fs", [to_case(ops) for ops in hists])
-        exprs = ["run_outputs %d [%s]" % (MIN_PART, ";\n ".join(op_term(o) for o in ops)) for ops in hists]
-        model = vlib.run_model("C18", IMPORTS, exprs, shard=8, timeout=1700)
+        res = vlib.run_impl("fs", [dict(to_case(ops), snapshots=True) for ops in hists + conflict])
+        allm = vlib.run_model("C18", IMPORTS, ["c18_all %s %d [%s]" % (universe, MIN_PART, ";\n ".join(op_term(o) for o in ops)) for ops in hists + conflict],
+                              shard=6, timeout=1700, prelude=PRELUDE)
     except (vlib.ModelError, vlib.HarnessError) as e:
         ctx.violation(dict(stage="harness", kind=type(e).__name__, error=str(e)[:3000]), has_input=False)
         return
+    parts = [split_model(m) for m in allm]
+    cres, cparts = res[len(hists):], parts[len(hists):]
+    res, parts = res[:len(hists)], parts[:len(hists)]
+    model = ["\n".join(p_[0]).encode() for p_ in parts]
+    states = [p_[1].encode() for p_ in parts]
+    # the file-system model against the code, and the side conditions of the refinement theorem on what was generated
+    for ops, r, p_ in zip(hists, res, parts):
+        if "panic" in r:
+            continue
+        if p_[5] != "true,true":
+            ctx.violation(dict(stage="harness", kind="a generated history is outside the domain of the refinement theorem (universe_ok, hist_okb) = " + p_[5],
+                               history=[show_op(o) for o in ops]), has_input=False)
+            continue
+        ctx.count("refinement.side_conditions_hold")
+        if p_[0] != p_[2]:
+            ctx.violation(dict(stage="proof", kind="the two models print different answers on a history inside the theorem's domain", history=[show_op(o) for o in ops]), has_input=False)
+        compare_fs_model(ctx, ops, r, p_[2], p_[3], p_[4], "in_universe")
+    for ops, r, p_ in zip(conflict, cres, cparts):
+        if "panic" in r:
+            ctx.violation(dict(stage="fs-history", kind="harness panic", panic=r["panic"], history=[show_op(o) for o in ops]))
+            continue
+        if any(a == "panic" for a in r["outs"]):
+            ctx.violation(dict(stage="fs-history", kind="backend panicked", history=[show_op(o) for o in ops]))
+            continue
+        compare_fs_model(ctx, ops, r, p_[2], p_[3], p_[4], "prefix_conflicts")
+        ctx.count("conflict.internal_errors", sum(1 for a in r["outs"] if a == "err:InternalError"))
     ndiff = 0
     first_diff = None
+    # state level: the directory tree at the end of the history against the model's final state
+    for ops, r, st in zip(hists, res, states):
+        if "tree" not in r:
+            continue
+        tree_state = state_of_tree(r["tree"])
+        ctx.cov["evaluations"] += 1
+        if tree_state != st.decode():
+            ctx.violation(dict(stage="correspondence:state", kind="the directory tree at the end of the history is not the model's final state "
+                               "(objects with sizes, which objects carry user metadata, open uploads, no temporary files)",
+                               tree=tree_state[:600], model=st.decode()[:600], history=[show_op(o) for o in ops]), has_input=False)
+        else:
+            ctx.cov["traces_validated_against_impl"] += 1
+            ctx.count("state.compared")
     for ops, r, m in zip(hists, res, model):
         if "panic" in r:
             ctx.violation(dict(stage="fs-history", kind="harness panic", panic=r["panic"], history=[show_op(o) for o in ops]))
